@@ -82,3 +82,51 @@ Example c03_example_roundtrip :
   parse (encode (Data 7 1 5 [0x7E; 0x7D; 0x11; 0x13; 0x18; 0x1A; 0x00; 0xFF])) =
     Some (Data 7 1 5 [0x7E; 0x7D; 0x11; 0x13; 0x18; 0x1A; 0x00; 0xFF]).
 Proof. vm_compute. reflexivity. Qed.
+
+(* ---- the tie to the source text -------------------------------------------------------------
+   gen/GenAshFn.v is emitted on every run by harness/pysrc.py from the SOURCE TEXT (Python AST) of
+   generate_random_sequence, _stuff_bytes, _unstuff_bytes, DataFrame._randomize, the to_bytes /
+   from_bytes expressions of the frame classes and parse_frame's class order.  The hand-written
+   model used by every theorem above is equal to what the source says now. *)
+Require Import BV.gen.GenAshFn BV.proofs.AshSrc_proofs.
+
+Theorem c03_source_random_sequence_is_lfsr : forall n,
+  py_generate_random_sequence n = Some (lfsr n 0x42).
+Proof. exact src_random_sequence. Qed.
+
+Theorem c03_source_module_sequence :
+  py_generate_random_sequence py_sequence_length = Some PSEUDO_RANDOM_DATA_SEQUENCE.
+Proof. exact src_module_sequence. Qed.
+
+Theorem c03_source_stuff : forall d, py_stuff_bytes d = Some (stuff d).
+Proof. exact src_stuff. Qed.
+
+Theorem c03_source_unstuff : forall d, py_unstuff_bytes d = unstuff d.
+Proof. exact src_unstuff. Qed.
+
+Theorem c03_source_randomize : forall d, py_randomize d = randomize d.
+Proof. exact src_randomize. Qed.
+
+Theorem c03_source_encode : forall f,
+  encode f =
+  match f with
+  | Data frm re ack p => append_crc (py_DataFrame_header frm re ack ++ match py_randomize p with Some r => r | None => [] end)
+  | Ack res nrdy ack => append_crc (py_AckFrame_header res nrdy ack)
+  | Nak res nrdy ack => append_crc (py_NakFrame_header res nrdy ack)
+  | Rst => append_crc py_RstFrame_header
+  | Rstack v c => append_crc (py_RStackFrame_header v c)
+  | Error v c => append_crc (py_ErrorFrame_header v c)
+  end.
+Proof. exact src_encode. Qed.
+
+Theorem c03_source_parse_fields : forall d f, parse d = Some f ->
+  match f with
+  | Data frm re ack _ => [frm; re; ack] = py_DataFrame_fields (hd 0 d)
+  | Ack res nrdy ack => [res; nrdy; ack] = py_AckFrame_fields (hd 0 d)
+  | Nak res nrdy ack => [res; nrdy; ack] = py_NakFrame_fields (hd 0 d)
+  | _ => True
+  end.
+Proof. exact src_parse_fields. Qed.
+
+Theorem c03_source_parse_order : py_parse_order = map (fun x => fst (fst x)) FRAME_MASKS.
+Proof. exact src_parse_order. Qed.
